@@ -534,7 +534,7 @@ K('a_plane_max', 'geometry3d.plane:Plane.max', [p('x', PL)], 'V3', 'Auto', [])
 K('a_plane_closest_points_between_line', 'geometry3d.plane:Plane.closest_points_between_line', [p('x', PL), p('line_ray', SEG3)], 'Opt (Tup V3 V3)', 'Auto', ['C12'])
 K('a_plane_distance_to_line', 'geometry3d.plane:Plane.distance_to_line', [p('x', PL), p('line_ray', SEG3)], 'S', 'Auto', ['C12'])
 K('a_plane_intersect_line_ray', 'geometry3d.plane:Plane.intersect_line_ray', [p('x', PL), p('line_ray', SEG3)], 'Opt V3', 'Auto', ['C11'])
-K('a_plane_intersect_plane', 'geometry3d.plane:Plane.intersect_plane', [p('x', PL), p('plane', PL)], 'Opt LR3', 'Auto', ['C11'])
+K('a_plane_intersect_plane', 'geometry3d.plane:Plane.intersect_plane', [p('x', PL), p('plane', PL)], 'Opt LR3', 'Auto', ['C11'], well_conditioned='planes_not_parallel')
 K('a_plane_is_coplanar_tolerance', 'geometry3d.plane:Plane.is_coplanar_tolerance', [p('x', PL), p('plane', PL), S('tolerance', 'tol'), S('angle_tolerance', 'tol')], 'B', 'Auto', ['C16'])
 K('a_arc2d_point_at_length', 'geometry2d.arc:Arc2D.point_at_length', [p('x', A2), S('length', 'pos')], 'V2', 'Auto', ['C17'])
 K('a_arc2d_distance_to_point', 'geometry2d.arc:Arc2D.distance_to_point', [p('x', A2), p('point', P2)], 'S', 'Auto', ['C12'])
